@@ -473,13 +473,13 @@ SCRIPTED = [
 
 
 def gen_cases(rng, tier):
-    n = {"quick": 1, "thorough": 12, "search": 2}[tier]
+    n = {"quick": 1, "thorough": 24, "search": 4}[tier]
     cases = []
     if tier != "search":
         cases.extend(SCRIPTED)
         cases.extend(VANISH_LOWER)
         cases.extend(PREEMPT)
-        for _ in range(3 * n):
+        for _ in range(2 * n):
             cases.append(_gen_preempt(rng, "wn"))
             cases.append(_gen_preempt(rng, "pub"))
         if tier == "quick":
@@ -487,22 +487,22 @@ def gen_cases(rng, tier):
         else:
             cases.extend(_enum(1, [0, 1, 2], 6))
             cases.extend(_enum(2, [0, 1], 4))
-    for _ in range(400 * n):
+    for _ in range(200 * n):
         cases.append(_gen_wn(rng))
-    for _ in range(60 * n):
+    for _ in range(30 * n):
         cases.append(_gen_wn(rng, threads=True))
-    for _ in range(60 * n):
+    for _ in range(40 * n):
         cases.append(_gen_wn(rng, malformed=True))
-    for _ in range(300 * n):
+    for _ in range(150 * n):
         cases.append(_gen_pub(rng))
-    for _ in range(60 * n):
+    for _ in range(30 * n):
         cases.append(_gen_pub(rng, want_empty=True))
-    for _ in range(60 * n):
+    for _ in range(30 * n):
         cases.append(_gen_pub(rng, threads=True))
-    for _ in range(15 * n):
+    for _ in range(8 * n):
         cases.append(_gen_conc(rng, "pub"))
         cases.append(_gen_conc(rng, "wn"))
-    for _ in range(40 * n):
+    for _ in range(28 * n):
         cases.append(_gen_race(rng))
     return cases
 
